@@ -87,6 +87,18 @@ func (o *c06Outer) Ändern(x int64) int64 { return o.A - x }
 func (m c06NamedMap) Älteste() int64     { return m["k"] + 1 }
 func (i c06Inner) Ökonomie() int64       { return i.Leaf + 4 }
 
+type C06EA struct{ X, OnlyA int64 }
+type C06EC struct{ X, OnlyC int64 }
+type C06EB struct{ C06EC }
+type c06EmbPtr struct {
+	*C06EA
+	C06EB
+}
+type c06Self struct {
+	*c06Self
+	V int64
+}
+
 type c06Stadt struct {
 	Größe int64
 	Ärzte []int64
@@ -181,6 +193,26 @@ var c06Access = []struct {
 	// arrays: elements by index, through pointers, of arrays
 	{"arr2[1][0]", func(d *c06Outer) int64 { return 30 }},
 	{"parr[2]", func(d *c06Outer) int64 { return 3 }},
+	// the same method reached through a pointer and then on a plain value (and the other
+	// way round): the method sets of T and *T are numbered differently
+	{"d.ValM() * z + v.ValM()", func(d *c06Outer) int64 { return d.A + 1 }},
+	{"v.ValM() * z + d.ValM()", func(d *c06Outer) int64 { return d.A + 1 }},
+	{"d.Add(1) * z + v.Add(2) * z + d.PtrM()", func(d *c06Outer) int64 { return d.A + 2 }},
+	{"vmap.k.ValM() * z + d.ValM() * z + vmap.k.Add(4)", func(d *c06Outer) int64 { return d.A + 4 }},
+	// a field promoted through an embedded POINTER at depth 1 wins over one promoted
+	// through embedded structs at depth 2, as in Go; names only the deeper struct has, and
+	// names only the pointer's struct has, are reachable too
+	{"ep.X", func(d *c06Outer) int64 { return 1 }},
+	{"ep.OnlyA * z + ep.X", func(d *c06Outer) int64 { return 1 }},
+	{"ep.OnlyC", func(d *c06Outer) int64 { return 3 }},
+	{"ep.OnlyA", func(d *c06Outer) int64 { return 9 }},
+	{"pep.X", func(d *c06Outer) int64 { return 1 }},
+	{"selfp.V", func(d *c06Outer) int64 { return 5 }},
+	// the empty string is a key like any other, as a literal and from a variable
+	{`emap[""]`, func(d *c06Outer) int64 { return 5 }},
+	{`emap[""] * z + emap[ek]`, func(d *c06Outer) int64 { return 5 }},
+	{`enest[""].Leaf`, func(d *c06Outer) int64 { return 6 }},
+	{`enest[""]["Leaf"]`, func(d *c06Outer) int64 { return 6 }},
 	// exported field and method names that do not start with an ASCII letter
 	{"d.Überblick()", func(d *c06Outer) int64 { return d.A + 3 }},
 	{"v.Überblick()", func(d *c06Outer) int64 { return d.A + 3 }},
@@ -305,6 +337,13 @@ func H_C06_access() {
 	vars.Set("arr2", [2][2]int64{{10, 20}, {30, 40}})
 	vars.Set("parr", &[3]int64{1, 2, 3})
 	vars.Set("stadt", c06Stadt{9, []int64{1, 2}})
+	vars.Set("vmap", map[string]c06Outer{"k": *d})
+	vars.Set("ep", c06EmbPtr{&C06EA{1, 9}, C06EB{C06EC{2, 3}}})
+	vars.Set("pep", &c06EmbPtr{&C06EA{1, 9}, C06EB{C06EC{2, 3}}})
+	vars.Set("selfp", c06Self{nil, 5})
+	vars.Set("emap", map[string]int64{"": 5, "x": 7})
+	vars.Set("ek", "")
+	vars.Set("enest", map[string]c06Inner{"": {Leaf: 6}})
 	vars.Set("baseAlone", C06Base{10, 20})
 	vars.Set("user", c06User{C06Base{10, 20}, 30})
 	vars.Set("deepAlone", C06Deep{C06DInner{40}})
@@ -583,4 +622,62 @@ func H_C06_generated() {
 	gi, ok := c04Int(got)
 	vfAssert(ok, "an integer is reached")
 	vfAssert(gi == nodes[n].V, "no access yields a value other than the one stored in the data")
+}
+
+// H_C06_mapKeys: a map indexed with a key of another numeric kind (or a number where the
+// keys are strings): the key is converted to the map's key type, and an entry is reached
+// only if the key survives the conversion - 300 is not a key of a map[uint8]T, 1.5 not a
+// key of a map[int]T, 65 not the key "A": those are absent keys (nil), never the entry
+// the wrapped / truncated / re-interpreted key happens to name.
+//
+//gosym:reach present,absent
+func H_C06_mapKeys() {
+	k := ndInt64("k")
+	vfAssume(k > -1000 && k < 1000)
+	v := ndInt64("v")
+	form := ndChoice("form", 6)
+	vars := make(VarMap)
+	vars.Set("k", k)
+	var present bool
+	var src string
+	switch form {
+	case 0:
+		vars.Set("m", map[uint8]int64{44: v})
+		src, present = `m[k]`, k == 44
+	case 1:
+		vars.Set("m", map[int8]int64{-3: v})
+		src, present = `m[k]`, k == -3
+	case 2:
+		vars.Set("m", map[string]int64{"A": v})
+		vars.Set("k65", 65)
+		src, present = `m[k65]`, false // 65 is not "A"
+	case 3:
+		vars.Set("m", map[int]int64{1: v})
+		vars.Set("f", 1.5)
+		src, present = `m[f]`, false
+	case 4:
+		vars.Set("m", map[int]int64{1: v})
+		src, present = `m[1]`, true // number literals are floats: 1.0 survives
+	default:
+		vars.Set("m", map[uint16]int64{300: v})
+		src, present = `m[k]`, k == 300
+	}
+	var got reflect.Value
+	vars.SetFunc("cap", c04Capture(&got))
+	set := hxSet(nil, "/m.jet", `{{ isset(`+src+`) }}{{ cap(`+src+`) }}`)
+	out, err := hxExec(set, "/m.jet", vars, nil)
+	if form == 2 && err != nil {
+		// (a number is no key for a map of strings: an error is as good as nil)
+		vfReach("absent")
+		return
+	}
+	vfAssert(err == nil, "the access succeeds")
+	if present {
+		vfReach("present")
+		gi, ok := c04Int(got)
+		vfAssert(out == "true" && ok && gi == v, "the entry stored under the key is reached")
+	} else {
+		vfReach("absent")
+		vfAssert(out == "false" && !got.IsValid(), "a key that is not in the map yields nil, never another entry")
+	}
 }
